@@ -69,6 +69,9 @@ Exact(t, v) ==
     [] p.vk = "bool"  -> t.tk = "bool"
     [] p.vk = "ts"    -> t.tk = "datetime"
     [] OTHER          -> FALSE
+(* unconvertible by specification, whatever the implementation's element-wise pass says: a text that *)
+(* is not the spelling of a number has no value in a numeric type                                      *)
+NeverConvertible(t, v) == Pool[v].vk = "str" /\ Pool[v].num = "none" /\ t.tk \in {"int", "float", "complex", "decimal"}
 (* the elements that cannot be converted individually: coerce_value raises, or a null for a type   *)
 (* that cannot hold nulls                                                                           *)
 Fails(i) == IF IsNull(E.c[i]) THEN ~HoldsNull(T) ELSE ~E.cv[i]
@@ -90,6 +93,9 @@ AfterCoerce ==
        (* the caller's back: that is neither "conforming data" nor "names the uncoercible values"             *)
        \cup (IF \A i \in 1..Len(E.c) : (~IsNull(E.c[i]) /\ ~E.cv[i]) => ~E.null_out[i]
              THEN {} ELSE {"UnconvertibleValueNulled"})
+       (* ... and a container holding a text that is no number is never "conforming data" of a numeric type: the call   *)
+       (* must raise and name it (this clause does not rely on the implementation's own element-wise oracle)            *)
+       \cup (IF \E i \in 1..Len(E.c) : NeverConvertible(T, E.c[i]) THEN {"NonNumericTextAccepted"} ELSE {})
   ELSE IF E.outcome = "parser" THEN
        (IF Rng(E.fc) = FailSet /\ E.fc_vals_ok THEN {} ELSE {"FailureCasesExact"})
        \cup (IF E.conforming THEN {"ConformingIsIdentity"} ELSE {})
